@@ -84,6 +84,9 @@ func (purityStream) Generate(rng *rand.Rand, tier string, emit func(Case)) {
 		if rng.Intn(3) == 0 {
 			sp.ContainerEdits.DeviceNodes = []*specs.DeviceNode{{Path: "/dev/specnode", Type: "c", Major: 5, Minor: 1}}
 		}
+		if rng.Intn(3) == 0 {
+			sp.ContainerEdits.AdditionalGIDs = [][]uint32{{0, 44}, {44, 0, 45}, {9}}[rng.Intn(3)]
+		}
 		for d := 0; d < 3; d++ {
 			e := specs.ContainerEdits{Env: []string{fmt.Sprintf("DEV%d=1", d)}}
 			if rng.Intn(2) == 0 {
@@ -107,7 +110,7 @@ func (purityStream) Generate(rng *rand.Rand, tier string, emit func(Case)) {
 			}
 			if rng.Intn(3) == 0 {
 				e.Mounts = []*specs.Mount{{HostPath: "/h", ContainerPath: fmt.Sprintf("/c%d", d), Options: []string{"ro"}}}
-				e.AdditionalGIDs = []uint32{uint32(100 + d)}
+				e.AdditionalGIDs = [][]uint32{{uint32(100 + d)}, {0, uint32(100 + d), 7}, {5, 0, 0, 6}}[rng.Intn(3)]
 			}
 			if rng.Intn(3) == 0 {
 				e.Hooks = []*specs.Hook{{HookName: "poststop", Path: fmt.Sprintf("/bin/dev%d", d), Args: []string{"x"}, Env: []string{"H=1"}}}
@@ -245,12 +248,31 @@ func (purityStream) Execute(c Case) {
 				return o
 			}
 			o1, o2 := mk(), mk()
+			// first a request that resolves these devices and then fails on an unknown name: nothing of it may stay behind
+			_, _ = cache.InjectDevices(mk(), append(append([]string{}, devs...), "unknown.com/class=none")...)
 			_, e1 := cache.InjectDevices(o1, devs...)
 			fresh, _ := cdi.NewCache(cdi.WithSpecDirs(specDir), cdi.WithAutoRefresh(false))
 			_, e2 := fresh.InjectDevices(o2, devs...)
 			if (e1 == nil) != (e2 == nil) || jsonImage(o1) != jsonImage(o2) {
 				obs["repeatable"] = false
 				obs["diverged"] = fmt.Sprintf("step %d: %s vs fresh %s", n, jsonImage(o1), jsonImage(o2))
+			}
+			// the edits of the cached objects applied directly (Device.ApplyEdits, Spec.ApplyEdits), twice, against
+			// the same on a fresh cache
+			for _, q := range devs {
+				cd, fd := cache.GetDevice(q), fresh.GetDevice(q)
+				if cd == nil || fd == nil {
+					continue
+				}
+				for rep := 0; rep < 2; rep++ {
+					a, b, sa, sb := mk(), mk(), mk(), mk()
+					ea, eb := cd.ApplyEdits(a), fd.ApplyEdits(b)
+					esa, esb := cd.GetSpec().ApplyEdits(sa), fd.GetSpec().ApplyEdits(sb)
+					if (ea == nil) != (eb == nil) || jsonImage(a) != jsonImage(b) || (esa == nil) != (esb == nil) || jsonImage(sa) != jsonImage(sb) {
+						obs["repeatable"] = false
+						obs["diverged"] = fmt.Sprintf("step %d: ApplyEdits of cached %s (round %d): %s / %s vs fresh %s / %s", n, q, rep, jsonImage(a), jsonImage(sa), jsonImage(b), jsonImage(sb))
+					}
+				}
 			}
 			if e1 == nil {
 				n++
